@@ -52,7 +52,7 @@ def main():
         e["serves_properties"] = sorted(CHECKS)
     m = {
         "version": 1,
-        "setup_cmd": "cd /verif && for f in spec/*.tla; do tla-sany $f >/dev/null || exit 1; done && /venv/bin/python -m compileall -q harness >/dev/null && mkdir -p work evidence replays",
+        "setup_cmd": "cd /verif/spec && for f in *.tla; do tla-sany $f >/dev/null || exit 1; done; cd /verif && /venv/bin/python -m compileall -q harness >/dev/null && mkdir -p work evidence replays",
         "hooks": {"guard": "SPOWTD_VERIF",
                   "enable": "no source hooks: observation is through public returns, committed tables, instrumented arguments and a sqlite3 connection factory installed by the harness process",
                   "baseline_off_cmd": "cd /repo && /venv/bin/python -m pytest -ra -q -p no:cacheprovider --timeout=900 --continue-on-collection-errors",
